@@ -48,6 +48,7 @@ func (s *session) judge(img *image) {
 		s2.registerDurable()
 		cur = s2
 	}
+	r.lastOp[s.level-1] = img.opIdx
 	r.logf("L%d crash image #%d: %s-sync point %d in op %d (%s) file %q; %s; written so far %d records, obliged durable %d",
 		img.level, r.imgSeq, img.kind, img.point, img.opIdx, img.opKind, img.file, img.lostDesc, img.wlen, img.d)
 	res := recoverDirs(walDir, snapDir, true, second)
@@ -171,7 +172,14 @@ func (s *session) evaluate(img *image, res *recResult) (int, bool) {
 	}
 	where := "crash at " + img.kind + "-sync point in op " + img.opKind + ", " + img.lostDesc
 	if res.err != nil {
-		r.fail("C16/recovery/fatal-error", "%s: recovery failed in %s: %v", where, res.stage, res.err)
+		sig := "C16/recovery/fatal-error"
+		if s.level == 2 && img.stale {
+			// the torn write landed on sectors whose durable content is the
+			// residue of the first life's torn tail (zeroed by ReadAll, but the
+			// zeroing was never synced)
+			sig = "C16/recovery/torn-tail-over-stale-bytes-fatal"
+		}
+		r.fail(sig, "%s: recovery failed in %s: %v", where, res.stage, res.err)
 		return 0, false
 	}
 	if !s.checkSnapshot(res, img.doneSnap, "C16/durability/completed-snapshot-lost") {
